@@ -385,12 +385,19 @@ func runReg(c caseIn) *caseOut {
 			// UpdateAuth(id, client): the same client may end up authenticated on two registered connections
 			id, client := op[1], op[2]
 			var err error
+			holder := 0 // the connection the client id resolves to before the call (control registry only)
 			switch {
 			case treg != nil:
 				err = treg.UpdateAuth(cid(id), fmt.Sprintf("t%d", client), "m1")
 			case creg != nil:
+				if h := creg.GetByClientID(int64(client)); h != nil {
+					holder = cnum(h.ConnID)
+				}
 				err = creg.UpdateAuth(cid(id), int64(client), "u")
 			default:
+				if h := sm.GetControlConnectionByClientID(int64(client)); h != nil {
+					holder = cnum(h.ConnID)
+				}
 				err = sm.UpdateControlConnectionAuth(cid(id), int64(client), "u")
 			}
 			if err != nil {
@@ -399,8 +406,18 @@ func runReg(c caseIn) *caseOut {
 			if (err != nil) != !before[id] {
 				out.fail(c.Kind+"-updateauth-result", fmt.Sprintf("UpdateAuth(%d,%d) returned %v, connection registered: %v", id, client, err, before[id]))
 			}
-			if after := keys(); !sameSet(before, after) {
-				out.fail(c.Kind+"-updateauth-changed-keys", fmt.Sprintf("UpdateAuth(%d,%d) changed the set of registered connections %v -> %v", id, client, sortedInts(before), sortedInts(after)))
+			// UpdateAuth(c, k) never adds a connection and removes at most the previous holder of k (another connection of the
+			// same client, /repo eb41b39); a failed call and the tunnel registry change nothing
+			after := keys()
+			for k := range after {
+				if !before[k] {
+					out.fail(c.Kind+"-updateauth-changed-keys", fmt.Sprintf("UpdateAuth(%d,%d) added connection %d: %v -> %v", id, client, k, sortedInts(before), sortedInts(after)))
+				}
+			}
+			for k := range before {
+				if !after[k] && !(err == nil && k == holder && k != id) {
+					out.fail(c.Kind+"-updateauth-changed-keys", fmt.Sprintf("UpdateAuth(%d,%d) dropped connection %d, which is not the previous holder of client %d (%d): %v -> %v", id, client, k, client, holder, sortedInts(before), sortedInts(after)))
+				}
 			}
 		} else {
 			id := op[1]
